@@ -41,6 +41,42 @@ OTHERS = {
     "pot": ('pot = Potentiometer("A1")', "sleep(pot.read())"),
     "ultra": ("us = Ultrasonic(26, 27)", "sleep(us.measure_distance())"),
 }
+PORTS = (None, "", "/dev/ttyUSB0", "COM12", "/dev/cu.usb modem 1")
+_PORTS_DONE: Set[tuple] = set()
+# what precedes the first device declaration: single-line imports, a parenthesised import over several lines, a
+# docstring over several lines - each with and without a blank line before the declaration
+PREAMBLES = {
+    "plain": IMPORTS,
+    "paren_import": (
+        "from Reduino import target\n"
+        'target("COM3")\n'
+        "from Reduino.Actuators import (\n    Led,\n    Servo,\n)\n"
+        "from Reduino.Utils import sleep\n"
+        "from Reduino.Displays import (\n    LCD,\n)\n"
+    ),
+    "paren_import_last_two": (
+        "from Reduino import target\n"
+        'target("COM3")\n'
+        "from Reduino.Utils import sleep\n"
+        "from Reduino.Displays import LCD\n"
+        "from Reduino.Actuators import (Led,\n    Servo)\n"
+    ),
+    "docstring": '"""Sketch.\n\nSeveral lines of text.\n"""\n' + IMPORTS + '"""another\nblock"""\n',
+    "docstring_first_only": '"""Sketch.\nTwo lines."""\n',
+    "backslash_import": (
+        "from Reduino import target\n"
+        'target("COM3")\n'
+        "from Reduino.Utils import sleep\n"
+        "from Reduino.Displays import LCD\n"
+        "from Reduino.Actuators import Led, \\\n    Servo\n"
+    ),
+}
+FIRST_DECLS = {
+    "servo": ("arm = Servo(9)", "arm.write(90)", "Servo"),
+    "lcd_par": ("lcd = LCD(rs=30, en=31, d4=32, d5=33, d6=34, d7=35)", 'lcd.line(0, "p")', "LiquidCrystal"),
+    "lcd_i2c": ("lcd = LCD(i2c_addr=39)", 'lcd.line(0, "i")', "LiquidCrystal_I2C"),
+    "led": ("led = Led(13)", "led.toggle()", None),
+}
 HEADER_TO_LIB = {"Servo.h": "Servo", "LiquidCrystal.h": "LiquidCrystal", "LiquidCrystal_I2C.h": "LiquidCrystal_I2C"}
 KNOWN_HEADERS = set(HEADER_TO_LIB) | {"Arduino.h", "Wire.h", "cstring"}
 
@@ -140,6 +176,18 @@ def generate(tier: str) -> List[dict]:
                             continue
                         for animate in ((False, True) if (n_par or n_i2c) and tier == "thorough" else (False,)):
                             cases.append(build(ss, sl, n_par, n_i2c, (), animate, "par-first", addr0, header))
+    # layout of the lines before the first declaration
+    for pname, pre in PREAMBLES.items():
+        if pname == "docstring_first_only":
+            pre = pre + IMPORTS.replace('"""', "")
+        for (k1, (d1, u1, lib1)), (k2, (d2, u2, lib2)) in itertools.product(FIRST_DECLS.items(), repeat=2):
+            if k1 == k2 or {k1, k2} == {"lcd_par", "lcd_i2c"}:
+                continue
+            for gap in ("", "\n", "# devices\n"):
+                for second_after_block in (False, True):
+                    mid = '"""note\nmore"""\n' if second_after_block else ""
+                    src = pre + gap + d1 + "\n" + mid + d2 + "\nwhile True:\n    " + u1 + "\n    " + u2 + "\n    sleep(5)\n"
+                    cases.append({"src": src, "want": sorted({lib for lib in (lib1, lib2) if lib}), "desc": {"preamble": pname, "first": k1, "second": k2, "gap": gap, "block_between": second_after_block}})
     return cases
 
 
@@ -176,6 +224,23 @@ def analyse(case: dict) -> Optional[str]:
         shutil.rmtree(tmp, ignore_errors=True)
     if written != libs:
         return f"platformio.ini requests {written}, the script needs {libs}"
+    # the same list must reach the file whatever the port argument looks like (unset, empty, a path, a name with blanks)
+    sig = tuple(libs)
+    if sig not in _PORTS_DONE:
+        for port in PORTS:
+            tmp = tempfile.mkdtemp(prefix="c14-", dir=str(BUILD))
+            try:
+                pio.write_project(__import__("pathlib").Path(tmp), "void setup() {}\nvoid loop() {}\n", port=port, platform="atmelavr", board="uno", lib_deps=libs)
+                cp = configparser.ConfigParser(interpolation=None)
+                cp.read(str(__import__("pathlib").Path(tmp) / "platformio.ini"), encoding="utf-8")
+                written = cp[cp.sections()[0]].get("lib_deps", "").split()
+            except Exception as exc:  # noqa: BLE001
+                return f"writing the project with port={port!r} failed: {type(exc).__name__}: {exc}"
+            finally:
+                shutil.rmtree(tmp, ignore_errors=True)
+            if written != libs:
+                return f"platformio.ini written with port={port!r} requests {written}, the script needs {libs}"
+        _PORTS_DONE.add(sig)
     includes = re.findall(r"^\s*#\s*include\s*[<\"]([^>\"]+)[>\"]", text, flags=re.M)
     unknown = [h for h in includes if h not in KNOWN_HEADERS]
     if unknown:
@@ -204,32 +269,58 @@ def _compile(text: str) -> Optional[str]:
     return None if ok else "; ".join(msgs)[:300]
 
 
-def main(tier: str, seed: int, only=None) -> int:
-    report = Report(ID, LEVEL, tier, seed)
-    cases = generate(tier)
-    texts: Dict[str, str] = {}
+N_CHUNKS = 16
 
-    def run_order(order: List[dict], label: str, twice: bool) -> None:
-        for case in order:
-            if len(report.violations) >= 60:
-                report.caps_hit.append("stopped after 60 violations")
-                return
+
+def _run_chunk(chunk: List[dict]):
+    """forward twice, then reverse once, in this interpreter; returns (evaluations, [(position, label, repeat, message)], texts)"""
+    texts: Dict[str, str] = {}
+    found = []
+    flagged = set()
+    count = 0
+    _PORTS_DONE.clear()
+    for label, order, twice in (("forward", list(enumerate(chunk)), True), ("reverse", list(reversed(list(enumerate(chunk)))), False)):
+        for pos, case in order:
             for rep in range(2 if twice else 1):
-                report.evaluations += 1
+                count += 1
                 err = analyse(case)
                 if err is None:
                     prev = texts.get(case["src"])
                     if prev is not None and prev != case["_text"]:
                         err = "firmware text differs from the text produced for the same script earlier in this process"
                     texts.setdefault(case["src"], case["_text"])
-                report.outcomes["violation" if err else "ok"] += 1
                 if err:
-                    key = explore.history_key(ID, "script", [("src", (case["src"],), {})])
-                    report.violation(key, f"[{label}{' repeat' if rep else ''}] {case['desc']}: {err}\n  script:\n    " + "\n    ".join(case["src"].splitlines()[7:]), {"case": {"src": case["src"], "want": case["want"], "desc": case["desc"]}, "message": err})
+                    if pos not in flagged:
+                        flagged.add(pos)
+                        found.append((pos, label, rep, err))
                     break
+    return count, found, texts
 
-    run_order(cases, "forward", twice=True)
-    run_order(list(reversed(cases)), "reverse", twice=False)
+
+def main(tier: str, seed: int, only=None) -> int:
+    report = Report(ID, LEVEL, tier, seed)
+    cases = generate(tier)
+    texts: Dict[str, str] = {}
+
+    # The scripts are dealt into N_CHUNKS hands (every N-th script); each hand is evaluated in one interpreter, forward
+    # twice and then in reverse, so that history dependence between different scripts shows within a hand.
+    chunks = [list(range(i, len(cases), N_CHUNKS)) for i in range(N_CHUNKS)]
+    jobs = [[cases[i] for i in idx] for idx in chunks]
+    results = pipeline.pool().imap(_run_chunk, jobs) if pipeline.WORKERS > 1 else map(_run_chunk, jobs)
+    for idx, (count, found, chunk_texts) in zip(chunks, results):
+        report.evaluations += count
+        report.outcomes["ok"] += count - len(found)
+        for src, t in chunk_texts.items():
+            texts.setdefault(src, t)
+        for pos, label, rep, err in found:
+            case = cases[idx[pos]]
+            report.outcomes["violation"] += 1
+            if len(report.violations) >= 60:
+                if "stopped after 60 violations" not in report.caps_hit:
+                    report.caps_hit.append("stopped after 60 violations")
+                continue
+            key = explore.history_key(ID, "script", [("src", (case["src"],), {})])
+            report.violation(key, f"[{label}{' repeat' if rep else ''}] {case['desc']}: {err}\n  script:\n    " + "\n    ".join(case["src"].splitlines()[0 if "preamble" in case["desc"] else 7:]), {"case": {"src": case["src"], "want": case["want"], "desc": case["desc"]}, "message": err})
     # compile every distinct firmware with its own #include lines
     # one representative per (library signature, other devices) - the textual agreement above is per script
     reps: Dict[tuple, str] = {}
